@@ -315,6 +315,9 @@ func (e *Enc) nextInstr(fr *Frame, st *State, x *ssa.Next) {
 	// number of keys produced so far: each key is produced at most once
 	steps := e.comp(st, it.comp+"#steps", "Int")
 	same := eq(sel(d, ref), e.comp(st, it.comp+"#dom0", it.compSort))
+	// exhausted, with the domain untouched since the iteration started: the visited set IS the domain
+	// (every key produced was present, every present key has been produced)
+	e.assume(st, implies(and(not(ok), same), eq(vis, sel(d, ref))))
 	e.assume(st, fmt.Sprintf("(and (<= 0 %s) (=> (and %s %s) (< %s %s)) (=> (and (not %s) %s) (= %s %s)))", steps, ok, same, steps, e.mapLen(st, mt, ref), ok, same, steps, e.mapLen(st, mt, ref)))
 	e.setComp(st, it.comp+"#steps", "Int", fmt.Sprintf("(+ %s 1)", steps))
 	// the visited set after this step (only meaningful when ok)
